@@ -97,7 +97,7 @@ Section LogGen.
     Qed.
   End Walk.
 
-  (** [csv log] on any readable log (regular file without read fault, or the empty name) *)
+  (** [csv log] on any readable log (regular file without read fault, or the null device; since fix F24 NOT the empty name, which does not open) *)
   Theorem csv_log_run_general : forall (w : world) (i : invocation) (op : options) (o : opened) (data : bytes),
     load w i = inr op -> i_cmd i = CCsvLog ->
     w_sink w = None ->
